@@ -789,7 +789,7 @@ h_GRreadimage(void)
     uint8 *data = calloc((size_t)total, 1);
 #endif
     H4V_ASSUME(data != NULL);
-    H4V_ASSUME(0 <= g_c && g_c < RW_NCOMP && 0 <= g_bb && g_bb < RW_CS && g_i >= 0 && g_j >= 0);
+    H4V_ASSUME(0 <= g_c && g_c < RW_NCOMP && 0 <= g_bb && g_bb < RW_CS && g_i >= 0 && g_j >= 0 && g_i < RW_MAXCNT && g_j < RW_MAXCNT);
     /* fill model: the ghost request element */
     g_fill_item = g_j * cx + g_i;
     g_fill_exp  = g_attr_present ? g_attr_data[g_c * RW_CS + g_bb] : 0;
